@@ -43,7 +43,49 @@ def ext_random_new(eng, selfv, args, kwargs):
     return r
 
 
+def ext_random_choice(eng, selfv, args, kwargs):
+    eng.used_assumption('random.Random.choice(seq) returns seq[k] for some 0 <= k < len(seq) (every k reachable is a '
+                        'property of the generator, not proved); its result is a function of the generator state only')
+    L = args[0]
+    if not (isinstance(L, VRef) and isinstance(L.typ, ty.TList)):
+        raise Unsupported('Random.choice on a non-list')
+    n = eng.llen(L)
+    eng.oblige_safe('IndexError', n > 0, 'choice-from-empty')
+    k = eng.fresh('choice_k', I)
+    eng.fact(z3.And(0 <= k, k < n))
+    return eng.list_get_typed(L, k)
+
+
+def ext_random_shuffle(eng, selfv, args, kwargs):
+    eng.used_assumption('random.Random.shuffle(lst) permutes lst in place (same multiset), touching nothing else')
+    L = args[0]
+    if not (isinstance(L, VRef) and isinstance(L.typ, ty.TList)):
+        raise Unsupported('Random.shuffle on a non-list')
+    n = eng.llen(L)
+    olds = eng.lel_arrays(L)
+    eng.ctx.n += 1
+    perm = z3.Function(f'perm!{eng.ctx.n}', I, I)
+    inv = z3.Function(f'perminv!{eng.ctx.n}', I, I)
+    i = z3.Int('pi')
+    news = []
+    for a in olds:
+        na = eng.fresh('shuf', a.sort())
+        eng.fact(z3.ForAll([i], z3.Implies(z3.And(0 <= i, i < n),
+                                           z3.And(0 <= perm(i), perm(i) < n, inv(perm(i)) == i,
+                                                  z3.Select(na, i) == z3.Select(a, perm(i)))),
+                           patterns=[z3.Select(na, i)]))
+        eng.fact(z3.ForAll([i], z3.Implies(z3.And(0 <= i, i < n),
+                                           z3.And(0 <= inv(i), inv(i) < n, perm(inv(i)) == i,
+                                                  z3.Select(na, inv(i)) == z3.Select(a, i))),
+                           patterns=[z3.Select(a, i)]))
+        news.append(na)
+    eng.list_set_all(L, n, news)
+    return VNone()
+
+
 EXTERNALS = {
+    'Random.choice': ext_random_choice,
+    'Random.shuffle': ext_random_shuffle,
     'Logger.info': ext_logger_noop,
     'Logger.setLevel': ext_logger_noop,
     'logging.getLogger': ext_get_logger,
